@@ -48,6 +48,12 @@ CHECKS["C19"] = dict(text="TLC checks on ALL small integer point sets (1 and 2 h
     "affine maps of y; recorded fits of the real class (1-3 hull dimensions, 0-3 extra columns, any low_dim_idx order, convex and non-convex targets, "
     "queries inside the footprint, metamorphic variants) are validated by TLC against that reference with exact rational offsets.", ref="6/C19",
     tech="exact-arithmetic TLA+ reference hull model-checked with TLC; TLC validation of recorded fits and queries")
+CHECKS["C11"] = dict(text="TLC enumerates every 3x2 matrix over {-1,0,2} x weightings x flag combinations (23 328 configurations; thorough: all, quick: every "
+    "16th) and each is replayed in the real scaler; TLC then decides, from the integer inputs, whether the fit had to be rejected (variance guard in exact "
+    "rationals) and checks on the implementation's OUTPUT that the transformed training data has weighted mean 0 / variance 1 (fixed point, "
+    "magnitude-derived budgets), that inverse_transform undoes transform exactly, that new data is mapped by the same affine map, and the routes "
+    "(repeated rows, StandardScaler, prior shift, prior rescaling up to sign); plus seeded larger lattices with widely different column scales.", ref="6/C11",
+    tech="TLC-enumerated configurations replayed in the code; TLC validates recorded outputs against exact-rational / fixed-point laws")
 NA = {}
 def main():
     props = [json.loads(l)["id"] for l in open(os.path.join(HERE, "properties.jsonl"))]
